@@ -19,7 +19,9 @@ RULE = (
     "boundary (thorough: every byte) before the final end tag, deletion / renaming / duplication of every end tag, "
     "transposition of adjacent different end tags, stray end tag inserted at every token boundary, non-blank text after "
     "every end tag, second top-level element.  A mutant is checked iff the independent strict scanner classifies it "
-    "MUST_REJECT (well-formed or ambiguous mutants are counted and skipped).  non-trivial = mutant of a document with >=2 "
+    "MUST_REJECT (well-formed or ambiguous mutants are counted and skipped).  Every mutant of the real documents and a quarter "
+    "of the sampled ones is also delivered as a complete file under a version-1 and a version-2 header (OFXTree.parse); an atheris "
+    "campaign asserts rejection of every mutated body the scanner classifies MUST_REJECT.  non-trivial = mutant of a document with >=2 "
     "aggregate levels that is not a cut directly after the root start tag; distinct by hash of the mutant text"
 )
 ASSUMPTIONS = [
